@@ -2,7 +2,7 @@
 # usage: tools/try_patch.sh <patch.diff | revert:<commit>> <PROP> [tier] [--tests]
 # Applies the change to a scratch worktree of /repo HEAD (outside /repo and /verif), optionally runs the
 # baseline suite there, runs ./check PROP with VERIF_REPO pointing at it, removes the worktree.
-VDIR=$(cd "$VDIR" && pwd)
+VDIR=$(cd "$(dirname "$0")/.." && pwd)
 P="$1"; PROP="$2"; TIER="${3:-quick}"; TESTS="$4"
 D=$(mktemp -d /tmp/wt_XXXXXX); rmdir "$D"
 git -C /repo worktree add -q --detach "$D" HEAD || exit 9
